@@ -114,7 +114,9 @@ def run(ctx):
     if cc is None:
         ctx.unknown("C20.1", None, None, "PPG3204._check_channels", "method missing")
         return
+    opnames = tuple(k for k, v in lab.imports.items() if v == "operator")
     ii = IntervalInterp(consts, functions=helpers)
+    ii.operator_names = opnames
     ii.run(cc.node)
     if not ii.returns:
         ctx.unknown("C20.1", cc, cc.node, "_check_channels", "no return value")
@@ -142,6 +144,7 @@ def run(ctx):
             if name != "__init__":
                 continue
         ii = IntervalInterp(consts, {"_check_channels": chs}, functions=helpers)
+        ii.operator_names = opnames
         ii.run(m.node)
         for site in ii.sites:
             n_sites += 1
@@ -206,7 +209,9 @@ def run(ctx):
                                 start_name = k_.arg
                         sd, q = hm, hq
                         break
-        if len(q) != 1:
+        if len(q) != 1 and _framing_by_value(ctx, ci.methods["set_data"]):
+            pass
+        elif len(q) != 1:
             ctx.unknown("C20.3", sd, sd.node, "set_data write command", f"{len(q)} command sites")
         else:
             js = q[0].args[0]
@@ -276,7 +281,9 @@ def run(ctx):
                 sends = any(isinstance(x, ast.Call) and src_of(x.func) == "self._query" for lp_ in loops[:1] for x in ast.walk(lp_))
                 if sends and (len(loops) == 2 or sc is not gd):
                     inner, gd_scope = a, sc
-        if inner is None:
+        if inner is None and _reassembly_by_value(ctx, gd):
+            pass
+        elif inner is None:
             ctx.unknown("C20.4", gd, gd.node, "get_data block accumulation", "per-block append inside the channel loop not found")
         else:
             lst = src_of(inner.func.value)
@@ -319,6 +326,121 @@ def run(ctx):
     ctx.require_min("C20.3", 1)
     ctx.require_min("C20.4", 1)
     ctx.require_min("C20.5", 3)
+
+
+def _framing_by_value(ctx, sd):
+    """C20.3 decided on the value of the command string, wherever it is built (helper, static method, comprehension):
+    ':DIG' ch ':PATT:DATA ' addr ',' n ',#' k n payload  with  payload = ''.join(X as str), n = size of X, k = len(str(n)) and the
+    address either a running variable that starts at start_addrs and advances by n, or the running sum of the block sizes
+    started at start_addrs (itertools.accumulate(sizes, initial=start_addrs)) paired with the blocks.  True when decided."""
+    pkg = ctx.pkg
+    it = Interp(pkg, self_class="PPG3204", assumptions={"data": ("inst", "numpy.ndarray", "ndarray")})
+    try:
+        it.run(sd)
+    except Exception:
+        return False
+    sites = []
+    for r in it.calls:
+        if r.callee and r.callee.endswith("._query") and r.args and isinstance(r.args[0], Form):
+            a = r.args[0].single_atom()
+            if a and a[0] == "fn" and a[1] == "fstr" and any(isinstance(x, Const) and isinstance(x.v, str) and "PATT:DATA " in x.v for x in a[2]):
+                sites.append((r, a))
+    if len(sites) != 1:
+        return False
+    r, a = sites[0]
+    vals = []
+    for x in a[2]:
+        xa = x.single_atom() if isinstance(x, Form) else None
+        if xa and xa[0] == "fn" and xa[1] == "fmt":
+            vals.append(xa[2][0])
+    why = []
+    if len(vals) != 6:
+        why.append("command does not have the six fields ch, addr, n, #k n data")
+    else:
+        ch, addr, n_, k_, n2, pay = vals
+        pa = pay.single_atom() if isinstance(pay, Form) else None
+        X = None
+        if pa and pa[0] == "fn" and pa[1] == "strjoin" and len(pa[2]) == 2 and isinstance(pa[2][0], Const) and pa[2][0].v == "":
+            X = pa[2][1]
+            xa = X.single_atom() if isinstance(X, Form) else None
+            while xa and ((xa[0] == "fn" and xa[1] == "astype" and xa[2]) or (xa[0] == "meth" and xa[2] == "astype")):
+                X = xa[2][0] if xa[0] == "fn" else xa[1]
+                xa = X.single_atom() if isinstance(X, Form) else None
+        if X is None:
+            why.append("payload is not the joined bit characters of the block")
+        else:
+            na = n_.single_atom() if isinstance(n_, Form) else None
+            is_size = bool(na) and ((na[0] == "fn" and na[1] in ("size", "len", "siglen") and na[2] and vk(na[2][0]) == vk(X))
+                                    or (na[0] == "attr" and na[2] == "size" and vk(na[1]) == vk(X)))
+            if not is_size:
+                why.append("the length field is not the block's size")
+        if vk(n_) != vk(n2):
+            why.append("the length field and the header's length differ")
+        if vk(k_) != vk(mk_fn("len", [mk_fn("str", [n_])])):
+            why.append("the header digit count is not len(str(n))")
+        aa = addr.single_atom() if isinstance(addr, Form) else None
+        start = S("start_addrs")
+        if aa and aa[0] == "loop":
+            var = aa[1].split("@")[0]
+            inits = [v for f_, st_, nm, v, c_, d_ in it.assign_log if nm == var and not in_loop(st_)]
+            upds = [v for f_, st_, nm, v, c_, d_ in it.assign_log if nm == var and in_loop(st_)]
+            if not (inits and vk(inits[-1]) == vk(start)):
+                why.append("the address does not start at start_addrs")
+            if not (upds and all(isinstance(u, Form) and vk(u - addr) == vk(n_) for u in upds)):
+                why.append("the address does not advance by the block length")
+        elif aa and aa[0] == "fn" and aa[1] == "elem" and isinstance(aa[2][0], Form) and (aa[2][0].single_atom() or ("",))[0] == "fn" \
+                and aa[2][0].single_atom()[1] == "itertools.accumulate":
+            acc = aa[2][0].single_atom()
+            ini = dict(acc[3]).get("initial")
+            seq = acc[2][0] if acc[2] else None
+            sa = seq.single_atom() if isinstance(seq, Form) else None
+            if ini is None or vk(ini) != vk(start):
+                why.append("the address does not start at start_addrs")
+            if not (sa and sa[0] == "fn" and sa[1] == "listcomp" and vk(sa[2][0]) == vk(n_)):
+                why.append("the address does not advance by the block length")
+        else:
+            why.append("address variable not set per block")
+    ctx.check("C20.3", not why, sd, r.node, f"set_data framing `{src_of(r.node)[:90]}`", "#<k><n><n bits> at consecutive addresses (decided on the value of the command string)", "; ".join(why))
+    return True
+
+
+def _reassembly_by_value(ctx, gd):
+    """C20.4 for a comprehension-style read-back: the list of blocks read for one channel must be joined by concatenation"""
+    pkg = ctx.pkg
+    it = Interp(pkg, self_class="PPG3204", assumptions={"size": ("inst", "int"), "start_addrs": ("inst", "int")})
+    try:
+        outs = it.run(gd)
+    except Exception:
+        return False
+    rets = [o for o in outs if o.kind == "return" and isinstance(o.value, Form)]
+    if len(rets) != 1:
+        return False
+
+    def reads(v):
+        return isinstance(v, Form) and any(x[0] == "fn" and x[1] == "fstr" and any(isinstance(p_, Const) and isinstance(p_.v, str) and "PATT:DATA?" in p_.v for p_ in x[2]) for x in v.atoms())
+    atoms = rets[0].value.atoms()
+    def block_list(x):
+        # a list with one entry per block read: the body holds the read command, the sequence iterated over does not
+        return x[0] == "fn" and x[1] == "listcomp" and len(x[2]) == 2 and reads(x[2][0]) and not reads(x[2][1])
+    per_block = [x for x in atoms if block_list(x) and not any(block_list(y) for y in x[2][0].atoms())]
+    if len(per_block) != 1:
+        return False
+    blk = Form.atom(per_block[0])
+    users = [x for x in atoms if x[0] == "fn" and x[1] != "listcomp" and any(isinstance(a_, Form) and vk(a_) == vk(blk) for a_ in x[2])]
+    names = {x[1].split(".")[-1] for x in users}
+    if names & {"array", "asarray", "stack", "vstack"}:
+        ctx.violation("C20.4", gd, rets[0].node, "get_data: blocks combined by stacking",
+                      "blocks of 1024 bits and a shorter last block are stacked as rows instead of concatenated: numpy raises on the ragged list (or returns a 2-D array), so the written bits are not returned")
+        return True
+    if names & {"concatenate", "hstack"}:
+        ctx.holds("C20.4", gd, rets[0].node, "get_data: blocks of one channel joined by concatenation", "concatenation of the blocks read for one channel (decided on the returned value)")
+        return True
+    return False
+
+
+def vk(v):
+    from ..forms import vkey
+    return vkey(v)
 
 
 def _parents(n):
